@@ -413,7 +413,9 @@ def c10_groups(r: random.Random, n_groups: int):
                  ('as = "Option<String>"', {"rename_all", "rename_all_fields", "tag", "content", "untagged"}),
                  ("export", set()), ('export_to = "sub/e.ts"', set())],
         "variant": [('type = "string"', {"rename_all"}), ('as = "String"', {"rename_all"}), ("inline", set())],
-        "field": [('type = "string"', {"flatten"}), ('as = "String"', {"flatten"}), ("inline", {"flatten"})],
+        "field": [('type = "string"', {"flatten"}), ('as = "String"', {"flatten"}), ("inline", {"flatten"}),
+                  # a serde attribute that only matters for a field that is not skipped
+                  ('#[serde(with = "m")]', {"rename", "flatten", "rename+default"})],
     }
     ctx = [""]
 
@@ -423,7 +425,7 @@ def c10_groups(r: random.Random, n_groups: int):
     def fill(tmpl, slot, attrs_text):
         d = {"C": "", "V": "", "F": ""}
         if ctx[0]:
-            attrs_text = f"#[ts({ctx[0]})]" + (" " if attrs_text else "") + attrs_text
+            attrs_text = (ctx[0] if ctx[0].startswith("#[") else f"#[ts({ctx[0]})]") + (" " if attrs_text else "") + attrs_text
         d[slot] = attrs_text + (" " if attrs_text else "")
         return tmpl.format(**d)
 
